@@ -152,7 +152,12 @@ void ScriptThreadLabel::SetThread(const ScriptVariable& label)
 {
     if (label.GetType() == variableType_e::String || label.GetType() == variableType_e::ConstString)
     {
-        m_Script = ScriptContext::Get().GetDirector().CurrentScriptClass()->GetScript();
+        const ScriptClass* const scriptClass = ScriptContext::Get().GetDirector().CurrentScriptClass();
+        if (!scriptClass) {
+            throw ScriptException("no running thread to take the script of label '" + label.stringValue() + "' from");
+        }
+
+        m_Script = scriptClass->GetScript();
         m_Label = label.constStringValue();
     }
     else if (label.GetType() == variableType_e::ConstArray && label.arraysize() > 1)
